@@ -203,6 +203,11 @@ R4_SITES = [
     (PP % ("cloud_print::CloudProcessor", "print_rule"), ["print_rule"], []),
     (PP % ("cloud_print::CloudProcessor", "print_rule_diffs"), ["print_rule"], []),
     (r"^ast_grep_lsp::Backend::<L>::get_diagnostics$", ["extend"], [("extend", 1)]),
+    # the single printing thread: every item a producer sent is handed to the printer
+    (r"^<ast_grep::scan::ScanWithConfig as ast_grep::utils::worker::Worker>::consume_items$", ["process"], []),
+    (r"^<ast_grep::scan::ScanStdin as ast_grep::utils::worker::Worker>::consume_items$", ["process"], []),
+    (r"^<ast_grep::run::RunWithInferredLang as ast_grep::utils::worker::Worker>::consume_items$", ["process"], []),
+    (r"^<ast_grep::run::RunWithSpecificLang as ast_grep::utils::worker::Worker>::consume_items$", ["process"], []),
 ]
 
 
@@ -272,7 +277,7 @@ def r4(ctx):
                 ctx.ob("R4", "%s/pipeline into %s#%d" % (short, sink, calls.index(c)), not drop,
                        "findings reach %s through %s — no element-dropping adaptor" % (sink, names or "a plain move") if not drop else
                        "findings pass through %s on their way to %s: some are never listed by this front end" % (drop, sink), where=c.fn.loc(c.line))
-    ctx.floor("R4", "finding loops", nloops, 9)
+    ctx.floor("R4", "finding loops", nloops, 13)
     ctx.floor("R4", "finding pipelines", npipes, 7)
 
 
